@@ -699,3 +699,26 @@ def fam_long(tier):
         ins.append("é" * k + "\n?")
     g = dict(id="lg0", text=text, alphabet=[233, 97], maxlen=1, inputs=[cps(x) for x in ins], entries=["r0", "r1", "r2", "r3", "r4"])
     return [g]
+
+
+def fam_trig(tier):
+    """One compact grammar with the triggers that independent seeded changes kept hitting (pop-then-push inside a failed attempt,
+    nested optionals that pop, zero-width iterations that change the stack, CRLF under an atomic rule, a repetition reached on the
+    check path, failures far right on multi-byte lines): part of every machine-based check, so that a slip in shared machinery is
+    seen whichever property's check happens to run."""
+    lines = ['WHITESPACE = _{ " " }', 'e = { "a"? }', 'p = { POP }', 'it = { "é" | "a" | "😀" }', 'bang = { "!" }',
+             't1 = { PUSH("a") ~ (DROP ~ PUSH("b") ~ "!")? ~ POP ~ ANY* }',
+             't2 = { PUSH("a") ~ PUSH("b"?) ~ (POP? ~ "x")? ~ PEEK_ALL }',
+             't3 = { PUSH(e) ~ PUSH(e) ~ p* ~ "b"? }',
+             't4 = ${ PUSH("a") ~ PUSH("") ~ DROP* ~ "b"? }',
+             't5 = @{ "x" ~ NEWLINE ~ "y"? }',
+             't6 = { it* ~ bang }',
+             't7 = !{ it* }', 't8 = @{ "x" ~ t7 ~ bang? }',
+             't9 = { !(it* ~ "!") ~ ANY* }',
+             't10 = { PUSH("a") ~ ("b" ~ tl | DROP ~ "b" ~ PUSH("ab") ~ tl) }', 'tl = { PEEK ~ bang }',
+             't11 = { it{2} ~ it+ ~ bang? }']
+    ins = ["ab!a", "aba", "aa", "ab", "abx", "ax", "abba", "aba ", "b", "", "aab", "a b", "x\r\ny", "x\r\n", "x\ny", "x\r", "x a é", "xaé!", "x  a", " a!", " aé !", "aé😀!", "a a a",
+           "a a a a!", "aa a", "abab!", "ab a!", "abb!", "é" * 34 + "?", "a" + "😀" * 33 + "?", "é" * 20 + "\n" + "😀" * 34 + " ?"]
+    g = dict(id="tg0", text="\n".join(lines), alphabet=cps("ab! x"), maxlen=2 if tier == "quick" else 3, inputs=[cps(x) for x in ins],
+             entries=["t1", "t2", "t3", "t4", "t5", "t6", "t8", "t9", "t10", "t11"])
+    return [g]
